@@ -92,6 +92,10 @@ def model(case):
             s["hide"] = True
             info["prune"] = True
             break
+        if L["t"] == "gcm" and L["fn"] == "e" and not case["exiting"]:
+            # the wrapper's generator stack (extracted with an error on it) is thrown away with the wrapper: the error
+            # is reported by fill_context() itself, once it has finished
+            s["discarded_error"] = True
         cur = {"next": cur + 1, "self": cur, "back": 0}[r]
         info["unwraps"] += 1
         s["obj"] = cur
@@ -117,7 +121,12 @@ def judge(case, res):
             if got["error"] != "RuntimeError":
                 return "%s: expected the 100-step RuntimeError, got error=%r" % (mode, got["error"])
             continue
-        if got["error"] is not None:
+        if exp.get("discarded_error"):
+            if "describing the inner manager fails" not in (got["error"] or ""):
+                return "%s: the error recorded on a discarded inner stack is reported nowhere (error=%r)" % (mode, got["error"])
+            if mode == "stack":
+                continue      # the failure surfaces through the stack's own elaboration: nothing else to compare
+        elif got["error"] is not None:
             return "%s: unexpected error %r" % (mode, got["error"])
         if got["log"] != log:
             return "%s: hook invocation log differs from the reference loop:\n got %r\n exp %r" % (mode, got["log"], log)
